@@ -27,9 +27,9 @@ var c17Fn *eng.Kind[StrFnCase]
 
 func init() {
 	c := eng.Register(&eng.Check{
-		ID:    "C17",
-		Title: "String builtins obey the laws of prefix, suffix, slice and pad",
-		Rule: "S = all strings of up to 4 symbols over {a, b, A, space, a 3-byte character} (781), T = those of up to 2 symbols (31), all integer positions from -2 to len+2: startWith/endWith/contains/find on S x T, left/right on S x in-range positions, mid on S x i x j, lpad/rpad on S x one-byte pads x lengths 0..8, replace on S x T x T, trim/lower/upper/len on S and on strings with tabs, line breaks and simply-cased non-ASCII letters, join/includes on all lists of up to 3 elements of T, regexp on 40 patterns x S against RE2 called directly, and the algebraic laws of the statement evaluated inside the language; compared with naive reference loops; distinct = distinct (builtin, result) pairs",
+		ID:          "C17",
+		Title:       "String builtins obey the laws of prefix, suffix, slice and pad",
+		Rule:        "S = all strings of up to 4 symbols over {a, b, A, space, a 3-byte character} (781), T = those of up to 2 symbols (31), all integer positions from -2 to len+2: startWith/endWith/contains/find on S x T, left/right on S x in-range positions, mid on S x i x j, lpad/rpad on S x one-byte pads x lengths 0..8, replace on S x T x T, trim/lower/upper/len on S and on strings with tabs, line breaks and simply-cased non-ASCII letters, join/includes on all lists of up to 3 elements of T, regexp on 40 patterns x S against RE2 called directly, and the algebraic laws of the statement evaluated inside the language; compared with naive reference loops; distinct = distinct (builtin, result) pairs",
 		TrustedBase: []string{"naive reference string functions in checks/c17.go", "Go regexp (RE2) called directly for the regexp builtin"},
 		Assumptions: []string{"len is the byte length (the measure under which left+right reassemble s)", "mid(s,i,j) with i>j, out-of-range positions for left/right/pad belong to C03 (no panic) only"},
 		Run:         runC17,
@@ -167,7 +167,6 @@ func evalWith(src string, data map[string]interface{}) (evalOut, error) {
 	r.SetThis(data)
 	return safeResolve(r, bg, p.Expression), nil
 }
-
 
 func judgeStrFn(c StrFnCase) *eng.Fail {
 	s, t, u := string(c.S), string(c.T), string(c.U)
@@ -376,7 +375,6 @@ func judgeStrFn(c StrFnCase) *eng.Fail {
 	}
 	return nil
 }
-
 
 func isASCII(s string) bool {
 	for i := 0; i < len(s); i++ {
